@@ -296,8 +296,36 @@ func (m *machine) Next(t *rapid.T) Op {
 		if len(cand) > 0 && uni(t, "ctx/pref", 10) < 8 {
 			idx = pickFrom(t, "ctx/repeated", cand)
 		}
+		// updates also go to one-shot contexts while they live, with repetition settings that must not turn them
+		// into repeated ones
+		oneshotShape := false
+		if kind == "updctx" {
+			var shots []int
+			for i, c := range m.ctxs {
+				if c.exists && !c.repeated {
+					shots = append(shots, i)
+				}
+			}
+			if len(shots) > 0 && uni(t, "ctx/oneshot", 10) < 4 {
+				idx, oneshotShape = pickFrom(t, "ctx/oneshotpick", shots), true
+			}
+		}
 		c := m.ctxs[idx]
 		op := Op{Kind: kind, Ctx: idx}
+		if oneshotShape {
+			if c.module {
+				op.Keeper = uni(t, "ctx/keeper", 8) > 0
+			}
+			if uni(t, "ctx/stranger", 12) == 0 {
+				op.Stranger, op.Who = true, uni(t, "ctx/who", 6)
+			}
+			op.Freq = uint64(pickFrom(t, "updctx/osfreq", []int64{c.timeout, c.timeout, c.timeout + 3, c.timeout - 1, 1}))
+			op.Total = int64(pickFrom(t, "updctx/ostotal", []int{-1, -1, 2, 5, 1, 0}))
+			if uni(t, "updctx/ostimeout", 4) == 0 {
+				op.Timeout = int64(1 + uni(t, "updctx/ostimeoutv", int(op.Freq)+1))
+			}
+			return op
+		}
 		if uni(t, "ctx/stranger", 8) == 0 {
 			op.Stranger, op.Who = true, uni(t, "ctx/who", 6)
 		}
@@ -534,6 +562,14 @@ func (m *machine) genCall(t *rapid.T, defs []int, module bool) Op {
 			op.Freq = uint64(op.Timeout) + uint64(uni(t, "call/freqextra", 4))
 		}
 		op.Total = int64(pickFrom(t, "call/total", []int{-1, -1, 1, 2, 3, 3, 5, 0}))
+	} else if uni(t, "call/oneshotfields", 3) == 0 {
+		// one-shot call carrying repetition fields: the message validation ignores them for repeated=false, and so
+		// must the module (one batch, then removed)
+		op.Freq = uint64(pickFrom(t, "call/osfreq", []int64{0, 1, op.Timeout - 1, op.Timeout, op.Timeout + 3}))
+		op.Total = int64(pickFrom(t, "call/ostotal", []int{-1, -1, 1, 2, 5, -3, 0}))
+		if op.Freq == 0 && op.Total == 0 {
+			op.Total = -1
+		}
 	}
 	if module {
 		op.Threshold = uint32((1 + uni(t, "call/threshold", len(op.Provs))))
